@@ -26,6 +26,11 @@ CHECKS = {
          "Requests generated from the supported HTTP/1.x grammar (5 methods, query, 0..40 headers incl. repeated names/non-ASCII values, Cookie, X-Forwarded-For with/without spaces, Content-Length bodies to 64 KiB) are parsed by Request::from_stream over a scripted reader under whole / byte-wise / every single split (short messages) or 64 biased splits / random multi-split plans. The parse must equal the spec, be identical under every plan, and Vec<u8>::from(Request) must be accepted by an independent strict parser as the same request and re-parse equal. Sampled, with measured class histogram in the evidence.",
          "Trusts the in-memory scripted reader as a model of read boundaries and the reference request parser in common/http.rs. Sync parser only so far (tokio twin pending).",
          "DESIGN.md §5 C02"),
+ "C07": ("exploration",
+         "proptest generation + bounded-exhaustive chunk compositions, validated by a strict reference response parser/encoder (round-trip + differential), scripted loopback servers for the client",
+         "(i) Responses built via the public API over every modelled StatusCode, 0..40 headers, all 256 Set-Cookie attribute combinations and bodies to 64 KiB are serialised and must parse under an independent strict response parser with the registered reason phrase, one line per header/cookie and the exact body, and parse back equal through Response::from_stream. (ii) Conforming responses rendered by a reference encoder with Content-Length or chunked framing (every composition of bodies <=6 bytes into chunks exhaustively; random chunkings above; both hex cases) must be returned exactly under whole/byte-wise/every-split/random read plans. (iii) Client::get/post/put/delete with redirects against scripted loopback servers on 127.x.0.y:80 over chains of 0..5 redirects {301,302,307} with relative and absolute Location: every hop must see the right method, target, Host and body and the client must return the final response.",
+         "Trusts the reference response parser/encoder (self-checked: it must read back every generated response) and the scripted reader; the client part needs to bind port 80 on loopback aliases (skipped and reported if impossible). Known finding: stray CRLF after non-empty bodies (pinned by repo tests).",
+         "DESIGN.md §5 C07"),
 }
 
 NOT_YET = "check not built yet (work in progress; see DESIGN.md §5 for the intended design)"
